@@ -50,12 +50,15 @@ type Contract struct {
 	ModAll   bool
 	HasMod   bool
 	LoopInv  map[int][]*Clause
+	LoopStep map[int][]*Clause
 	Props    []string
 	Inline   bool
 	Trusted  bool
 	NilRecv  bool
 	Nilable  map[string]bool
 	MayPanic bool
+	Pure     bool
+	Defines  []*Clause
 	File     string
 	IsIface  bool
 	Replay   []string
@@ -73,6 +76,8 @@ type GhostFunc struct {
 	Name   string
 	Params []string // sorts; "bytes" expands to (Array Int Int) Int Int
 	Ret    string
+	RetT   ast.Expr
+	Pkg    *types.Package
 	Field  bool // ghost field: a heap-like Int->Ret map indexed by an object reference
 }
 
@@ -83,7 +88,7 @@ func (c *Contract) nilable(name string, isRecv bool) bool {
 	return c.Nilable[name]
 }
 
-var clauseKeywords = map[string]bool{"nilable": true, "requires": true, "ensures": true, "modifies": true, "loop": true, "property": true,
+var clauseKeywords = map[string]bool{"nilable": true, "pure": true, "defines": true, "requires": true, "ensures": true, "modifies": true, "loop": true, "property": true,
 	"inline": true, "trusted": true, "nilrecv": true, "maypanic": true, "label": true, "replay": true, "topensures": true}
 
 func (e *Engine) loadContracts(dir string, pkg *types.Package) error {
@@ -163,15 +168,17 @@ func (e *Engine) loadContracts(dir string, pkg *types.Package) error {
 				}
 			}
 			g.Ret = "Int"
+			g.Pkg = pkg
 			if fd.Type.Results != nil && len(fd.Type.Results.List) == 1 {
 				g.Ret = ghostSort(fd.Type.Results.List[0].Type)
+				g.RetT = fd.Type.Results.List[0].Type
 			}
 			e.ghosts[g.Name] = g
 			pendingPred, cur, lastClause = nil, nil, nil
 			continue
-		case kw == "func" || kw == "closure" || kw == "iface":
+		case kw == "func" || kw == "closure" || kw == "iface" || kw == "functype" || kw == "funcfield":
 			pendingPred = nil
-			c := &Contract{Header: text, Pkg: pkg, LoopInv: map[int][]*Clause{}, File: path}
+			c := &Contract{Header: text, Pkg: pkg, LoopInv: map[int][]*Clause{}, LoopStep: map[int][]*Clause{}, File: path}
 			switch kw {
 			case "func":
 				fd, err := parseFuncHeader(text)
@@ -189,6 +196,26 @@ func (e *Engine) loadContracts(dir string, pkg *types.Package) error {
 				}
 				c.Decl = fd
 				c.Key = funcKey(pkg, fd, "$"+strings.TrimSpace(rest[i+1:]))
+			case "funcfield":
+				// funcfield Type.field(params) (results): contract on calls through a func-valued struct field
+				i := strings.Index(rest, ".")
+				j := strings.Index(rest, "(")
+				fd, err := parseFuncHeader("func (self int) call" + rest[j:])
+				if err != nil {
+					return fail(err)
+				}
+				c.Decl = fd
+				c.IsIface = true
+				c.Key = "funcfield:" + pkg.Path() + "." + rest[:i] + "." + rest[i+1:j]
+			case "functype":
+				// functype Name(params) (results): contract on calls through values of a named func type
+				fd, err := parseFuncHeader("func (self " + fields[1][:strings.Index(fields[1], "(")] + ") call" + rest[strings.Index(rest, "("):])
+				if err != nil {
+					return fail(err)
+				}
+				c.Decl = fd
+				c.IsIface = true
+				c.Key = "functype:" + pkg.Path() + "." + fields[1][:strings.Index(fields[1], "(")]
 			case "iface":
 				// iface Type.Method(params) (results)
 				i := strings.Index(rest, ".")
@@ -251,16 +278,20 @@ func (e *Engine) loadContracts(dir string, pkg *types.Package) error {
 			}
 		case "loop":
 			// loop K invariant <spec>
-			if len(fields) < 3 || fields[2] != "invariant" {
-				return fail(fmt.Errorf("expected: loop K invariant <spec>"))
+			if len(fields) < 3 || (fields[2] != "invariant" && fields[2] != "step") {
+				return fail(fmt.Errorf("expected: loop K invariant|step <spec>"))
 			}
 			k, err := strconv.Atoi(fields[1])
 			if err != nil {
 				return fail(err)
 			}
-			i := strings.Index(rest, "invariant")
-			lastClause = &Clause{Text: strings.TrimSpace(rest[i+len("invariant"):]), Label: pendingLabel}
-			cur.LoopInv[k] = append(cur.LoopInv[k], lastClause)
+			i := strings.Index(rest, fields[2])
+			lastClause = &Clause{Text: strings.TrimSpace(rest[i+len(fields[2]):]), Label: pendingLabel}
+			if fields[2] == "step" {
+				cur.LoopStep[k] = append(cur.LoopStep[k], lastClause)
+			} else {
+				cur.LoopInv[k] = append(cur.LoopInv[k], lastClause)
+			}
 			pendingLabel = ""
 		case "property":
 			for _, f := range fields[1:] {
@@ -274,6 +305,12 @@ func (e *Engine) loadContracts(dir string, pkg *types.Package) error {
 			cur.Inline = true
 		case "trusted":
 			cur.Trusted = true
+		case "pure":
+			cur.Pure = true
+		case "defines":
+			lastClause = &Clause{Text: rest, Label: pendingLabel}
+			cur.Defines = append(cur.Defines, lastClause)
+			pendingLabel = ""
 		case "nilrecv":
 			cur.NilRecv = true
 		case "nilable":
@@ -299,8 +336,11 @@ func (e *Engine) loadContracts(dir string, pkg *types.Package) error {
 func (e *Engine) finishContracts() error {
 	for _, k := range e.contractOrder {
 		c := e.contracts[k]
-		all := append(append([]*Clause{}, c.Requires...), c.Ensures...)
+		all := append(append(append([]*Clause{}, c.Requires...), c.Ensures...), c.Defines...)
 		for _, cs := range c.LoopInv {
+			all = append(all, cs...)
+		}
+		for _, cs := range c.LoopStep {
 			all = append(all, cs...)
 		}
 		for _, cl := range all {
